@@ -22,6 +22,7 @@ import (
 //   tooladdr base addr                                     ↦ the addresses written to addr2line / llvm-symbolizer (code, data)
 //   a2lnm    base syms hasNM addr stack (c13a2l.go)         ↦ Func of the frames addr2Liner.addrInfo returns
 //   session  files events (c13sess.go)                      ↦ one observable per event of a history on ONE Binutils
+//   conv     kind base table syms hasNM addrs (c13conv.go)  ↦ answers of ONE addr2Liner / llvmSymbolizer over one simulated pipe
 //   maps     elf mapping bias (thorough, real processes)   ↦ [] (specification-side check only)
 // The loader-driven generators (c13LoaderCases) construct the runtime mapping from the segment
 // layout and a page-aligned bias exactly as the kernel does and ship the bias, so that the Coq
@@ -811,15 +812,18 @@ func c13NMCases(c *Ctx, n int) {
 
 func runC13(c *Ctx) {
 	c13FindingF23(c)
-	c13LoaderCases(c, c.Budget(2600, 60000))
-	c13GetBaseCases(c, c.Budget(500, 10000))
-	c13PHMCases(c, c.Budget(600, 15000))
+	// the streams whose cases cost most to evaluate come first, so that their shards start in the
+	// first wave of the parallel evaluation
+	c13ConvCases(c, c.Budget(260, 10000))
+	c13SessionCases(c, c.Budget(260, 8000))
+	c13A2LNMCases(c, c.Budget(260, 10000))
+	c13NMCases(c, c.Budget(260, 8000))
+	c13LoaderCases(c, c.Budget(1700, 60000))
+	c13GetBaseCases(c, c.Budget(400, 10000))
+	c13PHMCases(c, c.Budget(400, 15000))
 	c13HFFOCases(c, c.Budget(300, 6000))
-	c13ObjAddrMisc(c, c.Budget(400, 10000))
-	c13NMCases(c, c.Budget(400, 8000))
+	c13ObjAddrMisc(c, c.Budget(300, 10000))
 	c13ToolCases(c, c.Budget(150, 3000))
-	c13A2LNMCases(c, c.Budget(500, 10000))
-	c13SessionCases(c, c.Budget(400, 8000))
 	if c.Tier == "thorough" {
 		c13RealBinaries(c)
 	}
